@@ -223,6 +223,10 @@ impl<'p> CoroutinePool<'p> {
             if self.get_running_size() == 0 || timeout_time.saturating_sub(now()) == 0 {
                 break;
             }
+            #[cfg(feature = "verif")]
+            if crate::verif::clock_advance(Duration::from_millis(1)) {
+                continue;
+            }
             std::thread::sleep(Duration::from_millis(1));
         }
         assert_eq!(PoolState::Stopping, self.stopped()?);
@@ -234,6 +238,8 @@ impl<'p> CoroutinePool<'p> {
         // clean up remaining wait tasks
         for r in &self.waits {
             let task_id = *r.key();
+            #[cfg(feature = "verif")]
+            crate::verif::point("clean:waiter");
             _ = self
                 .results
                 .insert(task_id, Err("The coroutine pool has stopped"));
@@ -306,6 +312,8 @@ impl<'p> CoroutinePool<'p> {
             self.notify(task_id);
             return Ok(r);
         }
+        #[cfg(feature = "verif")]
+        crate::verif::point("wait:checked");
         if SchedulableCoroutine::current().is_some() {
             let timeout_time = get_timeout_time(wait_time);
             loop {
@@ -325,6 +333,17 @@ impl<'p> CoroutinePool<'p> {
             assert!(self.waits.insert(task_id, arc.clone()).is_none());
             arc
         };
+        #[cfg(feature = "verif")]
+        crate::verif::point("wait:registered");
+        #[cfg(feature = "verif")]
+        let wait_time = if crate::verif::is_virtual_driver() {
+            if *arc.0.lock().expect("lock failed") {
+                _ = crate::verif::clock_advance(wait_time);
+            }
+            Duration::ZERO
+        } else {
+            wait_time
+        };
         let (lock, cvar) = &*arc;
         drop(
             cvar.wait_timeout_while(
@@ -334,6 +353,8 @@ impl<'p> CoroutinePool<'p> {
             )
             .map_err(|e| Error::other(format!("{e}")))?,
         );
+        #[cfg(feature = "verif")]
+        crate::verif::point("wait:woken");
         if let Some(r) = self.try_take_task_result(task_id) {
             self.notify(task_id);
             return Ok(r);
@@ -422,6 +443,8 @@ impl<'p> CoroutinePool<'p> {
     fn try_run(&self) -> Option<()> {
         self.task_queue.pop().map(|task| {
             let task_id = task.id();
+            #[cfg(feature = "verif")]
+            crate::verif::point("run:popped");
             if CANCEL_TASKS.contains(&task_id) {
                 _ = CANCEL_TASKS.remove(&task_id);
                 warn!("Cancel task:{} successfully !", task_id);
@@ -430,7 +453,11 @@ impl<'p> CoroutinePool<'p> {
             if let Some(co) = SchedulableCoroutine::current() {
                 _ = RUNNING_TASKS.insert(task_id, co.id);
             }
+            #[cfg(feature = "verif")]
+            crate::verif::point("run:registered");
             let (_, result) = task.run();
+            #[cfg(feature = "verif")]
+            crate::verif::point("run:done");
             _ = RUNNING_TASKS.remove(&task_id);
             if self.no_waits.contains(&task_id) {
                 _ = self.no_waits.remove(&task_id);
@@ -440,6 +467,8 @@ impl<'p> CoroutinePool<'p> {
                 self.results.insert(task_id, result).is_none(),
                 "The previous result was not retrieved in a timely manner"
             );
+            #[cfg(feature = "verif")]
+            crate::verif::point("run:inserted");
             self.notify(task_id);
         })
     }
@@ -458,6 +487,8 @@ impl<'p> CoroutinePool<'p> {
         // 检查正在运行的任务是否是要取消的任务
         if let Some(info) = RUNNING_TASKS.get(&task_id) {
             let co_name = *info;
+            #[cfg(feature = "verif")]
+            crate::verif::point("cancel:looked_up");
             // todo windows support
             #[allow(unused_variables)]
             if let Some(pthread) = Scheduler::get_scheduling_thread(co_name) {
